@@ -243,7 +243,7 @@ impl<R: Region, O: IndexContainer<R::Index>> ReadSliceInner<'_, R, O> {
     #[must_use]
     pub fn get(&self, index: usize) -> R::ReadItem<'_> {
         assert!(
-            index <= self.end - self.start,
+            index < self.end - self.start,
             "Index {index} out of bounds {} ({}..{})",
             self.end - self.start,
             self.start,
